@@ -557,3 +557,16 @@ Proof. intros [H|H]; simpl; rewrite H; reflexivity. Qed.
 Theorem blocked_enables_nothing t u :
   status_of t u = TBlocked -> gnode_ok t (Some u) = false.
 Proof. intros H; simpl; rewrite H; reflexivity. Qed.
+
+(** statuses that the tree never hands to the executor: a task persisted as running (its main
+    action had started), finished, failed, canceled or blocked is not executable (C04) *)
+Theorem not_executable_status t g :
+  match status_of t g with
+  | TRunning | TSuccess | TSkipped | TFailed | TCanceled | TBlocked => executable t g = false
+  | _ => True
+  end.
+Proof. unfold executable. destruct (status_of t g); simpl; auto. Qed.
+
+(** marking children canceled (cancelChildTasks) makes them enable nothing downstream *)
+Theorem canceled_enables_nothing t u : status_of t u = TCanceled -> gnode_ok t (Some u) = false.
+Proof. intros H; simpl; rewrite H; reflexivity. Qed.
